@@ -71,4 +71,15 @@ CLAIMS = {
                    'scan / VerifyDAG never becomes a success return (graph.cc, AddTarget, dyndep re-plan).',
         'not_decided': 'that the printed cycle is an actual cycle of the graph; completeness across dyndep re-scans.',
     },
+    'C18': {
+        'design': '5.18',
+        'technique': 'who-may-call + provenance of deleted paths + sibling guard agreement + full-range/skip-exactness loops over clang CFG facts',
+        'decides': 'the cleaner removes files only through Remove -> RemoveFile under !dry_run and performs no other '
+                   'file-system effect; every path handed to Remove is an element of some outputs_, a depfile, an '
+                   'rspfile, or a build-log key under the dead guard (never inputs_/validations_); the three scopes '
+                   'agree on the phony exclusion and are compared on the generator exclusion; all-edges/all-outputs '
+                   'loops are full-range, depfile and rspfile are covered, dyndep files are loaded first (skipped '
+                   'only if absent or already loaded); by-target recursion marks before descending.',
+        'not_decided': 'that a following build re-creates the removed files.',
+    },
 }
